@@ -20,6 +20,11 @@ pub enum ChunkDeserializationError {
     #[error("Requested an invalid max chunk size of {chunk_size}.  The largest chunk size possible is 2147483647")]
     InvalidMaxChunkSize { chunk_size: usize },
 
+    /// A chunk header changed the length of a message that is only partially received to a
+    /// value that is smaller than the amount of payload already received for that message.
+    #[error("Received a chunk on csid {csid} declaring a message length of {length}, which is less than the payload already received for that message")]
+    InvalidMessageLength { csid: u32, length: u32 },
+
     /// An I/O error occurred while reading the input buffer
     #[error("{0}")]
     Io(#[from] io::Error),
